@@ -33,6 +33,7 @@ func genFallback(o *out) {
 		fail(err.Error())
 		return
 	}
+	genFallbackThreshold(o, pf, file)
 	fd := funcDeclRecv(pf, "fallback", "doFallback")
 	if fd == nil {
 		fail("func doFallback not found in " + file)
@@ -215,4 +216,246 @@ func genFallback(o *out) {
 	}
 	fmt.Fprintf(&o.buf, "Definition fallback_wait_cases : list string := %s. (* %s doFallback secondary: first select *)\n", cases(sels[0]), file)
 	fmt.Fprintf(&o.buf, "Definition fallback_hold_cases : list string := %s. (* %s doFallback secondary: standby select *)\n", cases(sels[1]), file)
+}
+
+// genFallbackThreshold translates the statements of newFallbackPlugin that
+// compute the value stored in fallback.fastFallbackDuration into a Gallina
+// function of the configured args.Threshold (in Z, nanoseconds):
+//
+//	Definition fallback_effective_threshold (cfg : Z) : Z := (let threshold := ... in ... threshold)%Z.
+//
+// Understood: "x := e" / "x = e" at the top level of the function, and
+// "if [t := e;] a OP b { x = e } [else { x = e }]"; expressions over
+// args.Threshold, local variables, constants, conversions, + - *.
+// Anything else is reported as MISSING (and the theorems that need the
+// function no longer compile).
+func genFallbackThreshold(o *out, pf *pfile, file string) {
+	const coq = "fallback_effective_threshold"
+	fd := funcDecl(pf, "newFallbackPlugin")
+	if fd == nil {
+		o.missing(coq, "func newFallbackPlugin not found in "+file)
+		o.missing("fallback_standby_field_from", "func newFallbackPlugin not found in "+file)
+		return
+	}
+	// the composite literal &fallback{...}: which expressions feed the two fields
+	var thrExpr, sbExpr ast.Expr
+	ast.Inspect(fd.Body, func(n ast.Node) bool {
+		cl, ok := n.(*ast.CompositeLit)
+		if !ok || exprString(cl.Type) != "fallback" {
+			return true
+		}
+		for _, el := range cl.Elts {
+			if kv, ok := el.(*ast.KeyValueExpr); ok {
+				switch exprString(kv.Key) {
+				case "fastFallbackDuration":
+					thrExpr = kv.Value
+				case "alwaysStandby":
+					sbExpr = kv.Value
+				}
+			}
+		}
+		return false
+	})
+	if sbExpr == nil {
+		o.missing("fallback_standby_field_from", "fallback{alwaysStandby: ...} not found")
+	} else {
+		fmt.Fprintf(&o.buf, "Definition fallback_standby_field_from : string := \"%s\"%%string. (* %s newFallbackPlugin: source of fallback.alwaysStandby *)\n", exprString(sbExpr), file)
+	}
+	if thrExpr == nil {
+		o.missing(coq, "fallback{fastFallbackDuration: ...} not found")
+		return
+	}
+
+	locals := map[string]bool{}
+	var bad string
+	fail := func(why string) string {
+		if bad == "" {
+			bad = why
+		}
+		return "0"
+	}
+	var tr func(e ast.Expr) string
+	tr = func(e ast.Expr) string {
+		c := &evalCtx{pf: pf, files: parseDir(filepath.Dir(pf.path)), scope: "newFallbackPlugin"}
+		if id, ok := e.(*ast.Ident); ok && locals[id.Name] {
+			return id.Name
+		}
+		if v, err := eval(c, e, 0); err == nil {
+			if v.Sign() < 0 {
+				return "(" + v.String() + ")"
+			}
+			return v.String()
+		}
+		switch x := e.(type) {
+		case *ast.ParenExpr:
+			return tr(x.X)
+		case *ast.SelectorExpr:
+			if exprString(x) == "args.Threshold" {
+				return "cfg"
+			}
+			return fail("unsupported operand " + exprString(x))
+		case *ast.CallExpr: // conversion
+			if len(x.Args) == 1 {
+				switch exprString(x.Fun) {
+				case "time.Duration", "int64", "int":
+					return tr(x.Args[0])
+				}
+			}
+			return fail("unsupported call " + exprString(x))
+		case *ast.BinaryExpr:
+			op := map[token.Token]string{token.ADD: "+", token.SUB: "-", token.MUL: "*"}[x.Op]
+			if op == "" {
+				return fail("unsupported operator " + x.Op.String())
+			}
+			return "(" + tr(x.X) + " " + op + " " + tr(x.Y) + ")"
+		case *ast.UnaryExpr:
+			if x.Op == token.SUB {
+				return "(- " + tr(x.X) + ")"
+			}
+		}
+		return fail("unsupported expression " + exprString(e))
+	}
+	cond := func(e ast.Expr) string {
+		be, ok := e.(*ast.BinaryExpr)
+		if !ok {
+			return fail("unsupported condition " + exprString(e))
+		}
+		a, b := tr(be.X), tr(be.Y)
+		switch be.Op {
+		case token.LEQ:
+			return "(" + a + " <=? " + b + ")"
+		case token.LSS:
+			return "(" + a + " <? " + b + ")"
+		case token.GTR:
+			return "(" + a + " >? " + b + ")"
+		case token.GEQ:
+			return "(" + a + " >=? " + b + ")"
+		case token.EQL:
+			return "(" + a + " =? " + b + ")"
+		case token.NEQ:
+			return "(negb (" + a + " =? " + b + "))"
+		}
+		return fail("unsupported comparison " + be.Op.String())
+	}
+	// x := e / x = e with a single plain identifier on the left
+	assign := func(s ast.Stmt) (string, ast.Expr, bool) {
+		as, ok := s.(*ast.AssignStmt)
+		if !ok || len(as.Lhs) != 1 || len(as.Rhs) != 1 || (as.Tok != token.DEFINE && as.Tok != token.ASSIGN) {
+			return "", nil, false
+		}
+		id, ok := as.Lhs[0].(*ast.Ident)
+		if !ok {
+			return "", nil, false
+		}
+		return id.Name, as.Rhs[0], true
+	}
+	// which variable ends up in the field
+	target, ok := thrExpr.(*ast.Ident)
+	if !ok {
+		o.missing(coq, "fastFallbackDuration is not set from a local variable: "+exprString(thrExpr))
+		return
+	}
+	// variables the target depends on, found by one backward pass over the function's statements
+	relevant := map[string]bool{target.Name: true}
+	mentions := func(n ast.Node) {
+		ast.Inspect(n, func(m ast.Node) bool {
+			if id, ok := m.(*ast.Ident); ok {
+				relevant[id.Name] = true
+			}
+			return true
+		})
+	}
+	writes := func(s ast.Stmt) []string {
+		var out []string
+		if name, _, ok := assign(s); ok {
+			out = append(out, name)
+		}
+		if is, ok := s.(*ast.IfStmt); ok {
+			for _, b := range is.Body.List {
+				if name, _, ok := assign(b); ok {
+					out = append(out, name)
+				}
+			}
+			if eb, ok := is.Else.(*ast.BlockStmt); ok {
+				for _, b := range eb.List {
+					if name, _, ok := assign(b); ok {
+						out = append(out, name)
+					}
+				}
+			}
+		}
+		return out
+	}
+	var keep []ast.Stmt
+	for i := len(fd.Body.List) - 1; i >= 0; i-- {
+		s := fd.Body.List[i]
+		hit := false
+		for _, w := range writes(s) {
+			if relevant[w] && w != "err" {
+				hit = true
+			}
+		}
+		if hit {
+			keep = append([]ast.Stmt{s}, keep...)
+			mentions(s)
+		}
+	}
+	var lets []string
+	for _, s := range keep {
+		if name, rhs, ok := assign(s); ok {
+			lets = append(lets, fmt.Sprintf("let %s := %s in", name, tr(rhs)))
+			locals[name] = true
+			continue
+		}
+		is := s.(*ast.IfStmt)
+		if is.Init != nil {
+			name, rhs, ok := assign(is.Init)
+			if !ok {
+				fail("unsupported if-initialiser")
+				continue
+			}
+			lets = append(lets, fmt.Sprintf("let %s := %s in", name, tr(rhs)))
+			locals[name] = true
+		}
+		c := cond(is.Cond)
+		branch := func(blk *ast.BlockStmt) (string, string) {
+			if blk == nil || len(blk.List) != 1 {
+				fail("if-branch is not a single assignment")
+				return "", "0"
+			}
+			name, rhs, ok := assign(blk.List[0])
+			if !ok {
+				fail("if-branch is not a single assignment")
+				return "", "0"
+			}
+			return name, tr(rhs)
+		}
+		name, thenV := branch(is.Body)
+		elseV := name
+		if is.Else != nil {
+			eb, ok := is.Else.(*ast.BlockStmt)
+			if !ok {
+				fail("else-if is not supported")
+				continue
+			}
+			n2, v2 := branch(eb)
+			if n2 != name {
+				fail("if/else assign different variables")
+			}
+			elseV = v2
+		}
+		if !locals[name] {
+			fail("assignment to " + name + " before its definition")
+		}
+		lets = append(lets, fmt.Sprintf("let %s := if %s then %s else %s in", name, c, thenV, elseV))
+	}
+	if !locals[target.Name] {
+		fail("no definition of " + target.Name + " found")
+	}
+	if bad != "" {
+		o.missing(coq, bad)
+		return
+	}
+	fmt.Fprintf(&o.buf, "Definition %s (cfg : Z) : Z := (%s %s)%%Z. (* %s newFallbackPlugin: fallback.fastFallbackDuration in ns as a function of args.Threshold *)\n",
+		coq, strings.Join(lets, " "), target.Name, file)
 }
